@@ -96,6 +96,23 @@ CLAIMED["C08"] = {
     "technique": "Lean 4 theorems (invariant by induction over host histories) + differential correspondence + independent role oracle",
 }
 
+CLAIMED["C10"] = {
+    "text": "Proof. Lean theorems: for every transmit timestamp in the PTP range a Master port emits exactly one Follow_Up numbered "
+            "like the Sync whose origin timestamp plus correction is the timestamp truncated to 2^-16 ns (followUp_exact, no failure "
+            "inside the range); a Delay_Req is answered with exactly one Delay_Resp echoing requester and sequence number with receive "
+            "time + correction = receive time + request correction to 2^-16 ns (delayResp_exact, under the stated no-overflow guard of "
+            "the I48F16 sum); Pdelay_Resp / Pdelay_Resp_Follow_Up echo requester, sequence number and correction and carry the times to "
+            "the nanosecond; every message constructor output decodes to itself under the model of the library's parser and has its "
+            "fixed size (44 / 54 octets); every frame any port-level host call emits bears the port's identity and the instance's "
+            "domain and sdoId, a call emits at most one frame (hence at most one event send), and by induction over every host history "
+            "(any length, so through every wrap) the Announce / Sync / Delay_Req / Pdelay_Req frames of a port are numbered c, c+1, … "
+            "mod 2^16 and nothing else moves a counter (seq_numbers_consecutive). Model tied by the inst stream (every emitted frame "
+            "bit-exact) plus an independent frame oracle.",
+    "note": "Trusted: Lean kernel; generators; range assumptions on configuration fields (Rust integer types). Announce size and "
+            "decodability with forwarded TLVs is C15. The Delay_Resp correction overflow (panic) is C03.",
+    "technique": "Lean 4 theorems (exact integer arithmetic, decode∘encode round trip, induction over host histories) + differential correspondence + independent frame oracle",
+}
+
 CLAIMED["C14"] = {
     "text": "Proof. Lean theorems: a completed peer exchange hands the filter exactly ((t4'-t1)-(t3'-t2))/2 (Spec.peerDelay, `fixed` "
             "division semantics), stamped t4', for every timestamp and correction value; a Pdelay_Resp or follow-up for the current "
